@@ -1,5 +1,6 @@
 import Sftp.Proofs.PipeFinal
 import Sftp.Proofs.PipeLive
+import Sftp.Proofs.PipeFini
 /-
   C02 — Responses leave the server exactly once per request and in arrival order, for every schedule.
 
@@ -17,13 +18,16 @@ import Sftp.Proofs.PipeLive
   own kind with r's own request id (whether each handler branch builds a packet type that is legal for the request
   type is the table property of C10, not a scheduling property).
 
-  Full strength would be: "in every maximal run, |sent| = |received|" (every request is answered).  That is FALSE
-  for the code as it is: known finding F5, the controller's `select` may take `fini` while responses are still
-  queued; witness `Sftp.C02.Known.drop_witness` in Props/Known/C02.lean.  What is proved here, for all schedules:
-  never wrong, never reordered, never duplicated (`sent_is_prefix`, `no_duplicate_no_invention`), complete as soon
-  as the pipeline has drained (`exactly_once_at_drain`), never deadlocked (`no_stuck_state`).  The only way to lose
-  a response is therefore the `ctlFini` step taken with a non-empty `responses` channel, and what is lost is always a
-  suffix of the request sequence.
+  Full strength: "when the server has finished, |sent| = |received| and sent = the in-order handler outputs" (every
+  request is answered exactly once, in order).  With the repaired controller (`drainOnFini`, the `fini` branch
+  drains both channels and sends before returning, and Serve waits for the controller) this is PROVED:
+  `every_request_answered` (in every reachable state in which the controller has exited) and
+  `every_request_answered_at_end` (in the last state of every maximal run), `stopped_is_final` /
+  `final_is_stopped` (the maximal runs are exactly those that end with the controller stopped).
+  For the controller of the pinned commit (`drainOnFini = false`) the statement is FALSE: known finding F5, witness
+  `Sftp.C02.Known.drop_witness` in Props/Known/C02.lean.  The remaining theorems hold for both variants and for
+  all schedules: never wrong, never reordered, never duplicated (`sent_is_prefix`, `no_duplicate_no_invention`),
+  complete as soon as the pipeline has drained (`exactly_once_at_drain`), never deadlocked (`no_stuck_state`).
 -/
 namespace Sftp.C02
 open Sftp.Pipe
@@ -116,6 +120,44 @@ theorem no_stuck_state (cfg : PipeCfg) (hreg : cfg.registerBeforeHandoff = true)
     rw [slots_length_run as hr]; simp [init]
   exact progress cfg hw hl hlen hin hst
 
+/-- FULL STRENGTH (repaired controller).  Under every schedule: once the controller has exited — which is what
+`pktMgr.wait()` in both Serve functions waits for — the responses written to the connection are exactly the
+handler outputs of ALL received requests, one each, in arrival order (same request id, built by the branch for that
+request's kind). -/
+theorem every_request_answered (cfg : PipeCfg) (hc : CfgOk cfg) (hd : cfg.drainOnFini = true)
+    (as : List Action) (s : State) (hr : run cfg (init cfg) as = some s)
+    (hst : s.controllerStopped = true) : s.sent = s.received.map mkResp := by
+  obtain ⟨_, _, hf⟩ := invFini_run hc.1 hc.2.1 hc.2.2 as (invLoc_init cfg) (invOrd_init cfg) (invFini_init cfg) hr
+  exact hf.answered hd hst
+
+/-- A state in which the controller has stopped is final: no action is enabled (needs no `drainOnFini`). -/
+theorem stopped_is_final (cfg : PipeCfg) (hc : CfgOk cfg) (as : List Action) (s : State)
+    (hr : run cfg (init cfg) as = some s) (hst : s.controllerStopped = true) (a : Action) :
+    step cfg s a = none := by
+  obtain ⟨hl, _, hf⟩ := invFini_run hc.1 hc.2.1 hc.2.2 as (invLoc_init cfg) (invOrd_init cfg) (invFini_init cfg) hr
+  exact stopped_terminal hl hf hst a
+
+/-- Conversely the only final states are those: if nothing is enabled, the input is closed and the controller
+has stopped (for every pool size ≥ 1). -/
+theorem final_is_stopped (cfg : PipeCfg) (hc : CfgOk cfg) (hw : 1 ≤ cfg.workers) (as : List Action) (s : State)
+    (hr : run cfg (init cfg) as = some s) (hstuck : ∀ a, step cfg s a = none) :
+    s.inputClosed = true ∧ s.controllerStopped = true := by
+  have hl := invLoc_run hc.1 as (invLoc_init cfg) hr
+  have hin := inputClosed_of_stuck hl hstuck
+  refine ⟨hin, ?_⟩
+  cases hst : s.controllerStopped
+  · obtain ⟨a, ha⟩ := no_stuck_state cfg hc.1 hw as s hr hin hst
+    rw [hstuck a] at ha
+    cases ha
+  · rfl
+
+/-- FULL STRENGTH, maximal runs: in the last state of every run that cannot be extended, every received request
+has been answered exactly once, in arrival order. -/
+theorem every_request_answered_at_end (cfg : PipeCfg) (hc : CfgOk cfg) (hd : cfg.drainOnFini = true)
+    (hw : 1 ≤ cfg.workers) (as : List Action) (s : State) (hr : run cfg (init cfg) as = some s)
+    (hstuck : ∀ a, step cfg s a = none) : s.sent = s.received.map mkResp :=
+  every_request_answered cfg hc hd as s hr (final_is_stopped cfg hc hw as s hr hstuck).2
+
 /-! ### non-vacuity and necessity of the hypotheses -/
 
 /-- today's configuration satisfies the hypotheses -/
@@ -136,6 +178,24 @@ example : (run .current (init .current) demo).map (·.handled) = some [2, 1, 3] 
 /-- a state as in `no_stuck_state`: input closed with a WRITE still in a worker; the worker can go on -/
 example : ((run .current (init .current) [.recv ⟨7, .rw⟩, .dispatch, .workerTake 3, .closeInput]).bind
     (fun s => step .current s (.workerHandle 3))).isSome = true := by decide
+
+/-- today's configuration drains on `fini` -/
+example : PipeCfg.current.drainOnFini = true := by decide
+
+/-- the schedule that loses the answer with the pinned controller (Known/C02.lean) now delivers it: the response is
+still in the `responses` channel when `ctlFini` fires, the drain picks it up (the request too) and sends it -/
+def drainDemo : List Action :=
+  [.recv ⟨5, .cmd⟩, .recv ⟨6, .rw⟩, .dispatch, .dispatch, .workerTake 0, .workerHandle 0, .workerReady 0,
+   .cmdTake, .cmdHandle, .cmdReady, .closeInput, .dispatcherShutdown, .ctlFini]
+
+example : (run .current (init .current) drainDemo).map
+    (fun s => (s.controllerStopped, s.sent, s.received.map mkResp, s.respInbox, s.reqInbox)) =
+    some (true, [⟨1, 5, .cmd⟩, ⟨2, 6, .rw⟩], [⟨1, 5, .cmd⟩, ⟨2, 6, .rw⟩], [], []) := by decide
+
+/-- `drainOnFini` is needed for the full-strength statement: same schedule, pinned controller, nothing sent -/
+theorem drain_needed :
+    (run .pinned (init .pinned) drainDemo).map (fun s => (s.controllerStopped, s.sent.length, s.received.length)) =
+    some (true, 0, 2) := by decide
 
 /-- `headMatch` is needed: if maybeSendPackets sent whenever both lists are non-empty, the answer to the second
 request would leave first. -/
